@@ -19,7 +19,7 @@ from . import verify, solve
 ROOT = os.path.dirname(os.path.dirname(os.path.abspath(__file__)))
 NATIVE_PY = "/venv/bin/python"
 
-CONTRACT_MODULES = ["numeric", "matchers", "wrappers", "scoring", "varints", "paging", "bounded_matchers"]
+CONTRACT_MODULES = ["numeric", "matchers", "wrappers", "scoring", "varints", "paging", "bounded_matchers", "rewrite"]
 
 TRUSTED_BASE = [
     "T1 pyvc: the ast->SMT encoding of the Python subset (DESIGN 2.3); mitigated by canaries on every run",
@@ -97,7 +97,7 @@ def load_known():
 
 def match_known(oid, prop, known):
     for k in known:
-        if k.get("status") != "known" or k.get("property") != prop or k.get("bounded"):
+        if k.get("status") != "known" or k.get("property") != prop or k.get("bounded") or k.get("shape"):
             continue
         pat = k.get("obligation", "")
         if pat.endswith("*"):
@@ -192,6 +192,15 @@ def run_check(prop, tier="quick", only=None, jobs=None, canaries=True, verbose=F
                 out = {"cases": 0, "failures": [], "error": traceback.format_exc()[-1500:]}
             out.update({"name": name, "bound": bound, "note": note, "seconds": round(time.time() - tb, 2)})
             bounded.append(out)
+    for name, (props, fn, note) in R.shape_checks.items():
+        if (prop == "all" or prop in props) and (not only or only in name):
+            tb = time.time()
+            try:
+                out = fn(tier, seed)
+            except Exception as e:
+                out = {"obligations": 0, "discharged": 0, "failures": [], "error": traceback.format_exc()[-1500:]}
+            out.update({"name": name, "note": note, "shape_check": True, "seconds": round(time.time() - tb, 2)})
+            bounded.append(out)
     return R, results, bounded, time.time() - t0
 
 
@@ -212,6 +221,7 @@ def summarise(prop, tier, R, results, bounded, wall, write=True, verbose=False):
     notes = set()
     covers = 0
     fallback_runs = []
+    known_shape = []
     for r in results:
         if r["status"] == "checker-error":
             errors.append((r["label"], r["error"]))
@@ -262,9 +272,42 @@ def summarise(prop, tier, R, results, bounded, wall, write=True, verbose=False):
             if c["error"]:
                 cur["error"] = c["error"]
             can_by[key] = cur
+    shape_samples = []
     for b in bounded:
         if b.get("error"):
             errors.append((b["name"], b["error"]))
+        if b.get("shape_check"):
+            kfs = [k for k in known if k.get("status") == "known" and k.get("property") == prop and k.get("shape") == b["name"]]
+            real_fail = []
+            fam_known = 0
+            for famname, fam in sorted((b.get("families") or {}).items()):
+                kk = []
+                for part in famname.split("+"):
+                    kk.append([k for k in known if k.get("status") == "known" and k.get("property") == prop
+                               and k.get("shape") == b["name"] and k.get("family") == part])
+                if all(kk):
+                    kk = [dict(kk[0][0], what=" AND ".join(x[0]["what"] for x in kk), family=famname)]
+                    known_shape.append((dict(kk[0], input="%d shapes, e.g. %s" % (fam["count"], json.dumps(fam["example"]["in"]))), fam))
+                    fam_known += fam["count"]
+                else:
+                    real_fail.append({"id": "shape-family:" + famname, "what": "%d shapes differ, explained only by reading(s) %s "
+                                      "which are not recorded as known findings" % (fam["count"], famname),
+                                      "in": fam["example"]["in"], "out": fam["example"]["out"]})
+            for f in b.get("failures", []):
+                hit = None
+                for k in kfs:
+                    if json.dumps(f.get("in"), sort_keys=True) == json.dumps(k.get("input"), sort_keys=True):
+                        hit = k
+                if hit is not None:
+                    known_shape.append((hit, f))
+                else:
+                    real_fail.append(f)
+            n_obl += b.get("discharged", 0) + len(real_fail)
+            n_dis += b.get("discharged", 0)
+            solver_s += b.get("solver_seconds", 0.0)
+            shape_samples.extend(b.get("samples", []))
+            b["failures"] = []
+            b["shape_failures"] = real_fail
     surviving = []
     for key, c in sorted(can_by.items()):
         can_total += 1
@@ -289,7 +332,7 @@ def summarise(prop, tier, R, results, bounded, wall, write=True, verbose=False):
                 k["witness"], "reproduces" if wit.get("reproduces") else "does NOT reproduce any more")))
         kf_printed.append({"obligation": pat, "what": k["what"], "failing_now": len(oids), "witness": wit})
     for k in known:
-        if k.get("status") == "known" and k.get("property") == prop and not k.get("bounded") \
+        if k.get("status") == "known" and k.get("property") == prop and not k.get("bounded") and not k.get("shape") \
                 and k.get("obligation") not in known_hits:
             out_lines.append("NOTE: known finding no longer observed (stale entry): %s" % k["obligation"])
     viol_docs = []
@@ -327,6 +370,22 @@ def summarise(prop, tier, R, results, bounded, wall, write=True, verbose=False):
             out_lines.append("VIOLATION property=%s replay=%s" % (prop, rel))
             out_lines.append("  bounded check %s failed on case %s" % (b["name"], f.get("case")))
             viol_docs.append({"bounded": b["name"], "replay": rel, "reproduced": True})
+    for k, f in known_shape:
+        out_lines.append("KNOWN-FINDING: property=%s %s [shape %s]" % (prop, k["what"], json.dumps(k.get("input"))))
+        kf_printed.append({"shape": k.get("shape"), "input": k.get("input"), "what": k["what"]})
+    for b in bounded:
+        for f in b.get("shape_failures", [])[:12]:
+            os.makedirs(os.path.join(ROOT, "replay"), exist_ok=True)
+            h = hashlib.sha1(json.dumps(f, sort_keys=True, default=str).encode()).hexdigest()[:10]
+            rel = "replay/%s_%s.json" % (prop, h)
+            with open(os.path.join(ROOT, rel), "w") as fh:
+                json.dump({"property": prop, "shape_check": b["name"], "obligation": f.get("id"), "failure": f,
+                           "reproduced": True, "snippet": None,
+                           "note": "input tree and the real function's output are given; the SMT model is a document "
+                                   "on which they differ"}, fh, indent=1, default=str)
+            out_lines.append("VIOLATION property=%s replay=%s" % (prop, rel))
+            out_lines.append("  shape obligation %s: %s  in=%s out=%s" % (f.get("id"), f.get("what"), json.dumps(f.get("in")), json.dumps(f.get("out"))))
+            viol_docs.append({"shape": b["name"], "replay": rel, "reproduced": True})
     for lab, err in undecided:
         out_lines.append("UNDECIDED unit=%s %s" % (lab, (err or "").splitlines()[0]))
     for lab, err in errors:
@@ -342,7 +401,7 @@ def summarise(prop, tier, R, results, bounded, wall, write=True, verbose=False):
     assumptions = sorted(set(assumptions)) + TRUSTED_BASE
     inlined = sorted(n[8:] for n in notes if n.startswith("inlined:"))
     used_contracts = sorted(n[9:] for n in notes if n.startswith("contract:"))
-    samples = [{"obligation": v[0], "solver": v[1], "result": v[2], "seconds": v[3]} for v in per_vc[:3]]
+    samples = [{"obligation": v[0], "solver": v[1], "result": v[2], "seconds": v[3]} for v in per_vc[:3]] + shape_samples[:3]
     if viol_docs:
         samples.append({"violation": viol_docs[0]})
     evidence = {
@@ -384,6 +443,19 @@ def summarise(prop, tier, R, results, bounded, wall, write=True, verbose=False):
             "explanation": "no deductive obligation exists for this property yet; decided by the bounded native "
                            "stand-ins only (class B, not proved)"})
         evidence["coverage"]["samples"] = [{"bounded_check": b["name"], "bound": b["bound"], "cases": b.get("cases")} for b in bounded]
+    shapes = [b for b in bounded if b.get("shape_check")]
+    if shapes and not results:
+        evidence["level"] = "translation_validation"
+        evidence["coverage"].update({
+            "programs": sum(b.get("obligations", 0) for b in shapes),
+            "disagreements_checked": sum(sum(f["count"] for f in (b.get("families") or {}).values()) + len(b.get("shape_failures", []))
+                                         for b in shapes),
+            "explanation": "each program is one (input tree, output of the real rewrite) pair; the two denotations are "
+                           "proved equal by z3 for EVERY index (documents arbitrary); shapes are bounded: "
+                           + "; ".join(str(b.get("bound")) for b in shapes),
+            "families_of_known_disagreements": dict((k, v["count"]) for b in shapes for k, v in (b.get("families") or {}).items())})
+        if not evidence["coverage"]["samples"]:
+            evidence["coverage"]["samples"] = shape_samples[:3] or [{"note": "no sample"}]
     if write:
         os.makedirs(os.path.join(ROOT, "evidence"), exist_ok=True)
         with open(os.path.join(ROOT, "evidence", "%s.json" % prop), "w") as f:
